@@ -98,6 +98,7 @@ class ScriptedBackend(TrialBackend):
         self.workers: Dict[int, Worker] = {}
         self.metrics: Dict[int, List[dict]] = {}
         self.stop_flag, self.pause_flag = set(), set()
+        self.ext_stopped = set()
         self.clock = 0
         self.values = values or (lambda t, r, i: float((7 * t + 3 * r + 5 * i) % 11))
         self.maxrep = maxrep
@@ -130,6 +131,7 @@ class ScriptedBackend(TrialBackend):
             elif a == "W_ExtStop":
                 w.state = "killed"
                 self.stop_flag.add(t)
+                self.ext_stopped.add(t)
             self.log.append({"a": a, "t": t})
         self.obs += 1
 
@@ -201,7 +203,8 @@ class ScriptedBackend(TrialBackend):
     # ---- recording of the public calls (the generic code under test is called through super())
     def fetch_status_results(self, trial_ids):
         st, res = super().fetch_status_results(trial_ids)
-        self.log.append({"a": "Fetch", "n": len(res), "ids": sorted(trial_ids),
+        dead = sorted(t for t, (_, s_) in st.items() if s_ == Status.failed or (s_ == Status.stopped and t in self.ext_stopped))
+        self.log.append({"a": "Fetch", "n": len(res), "ids": sorted(trial_ids), "dead": dead,
                          "res": [[t, r["run"], r["idx"]] for t, r in res],
                          "st": {str(t): s for t, (_, s) in st.items()}})
         return st, res
@@ -282,15 +285,33 @@ class ScriptedCriterion:
         return self.held
 
 
+class LivelockError(Exception):
+    """The tuning loop keeps iterating although the environment script is long exhausted."""
+
+
 class Recorder(TunerCallback):
+    MAX_ITER = 3000
+
     def __init__(self, log):
         self.log = log
+        self.n = 0
 
     def on_loop_start(self):
+        self.n += 1
+        if self.n > self.MAX_ITER:
+            raise LivelockError(f"more than {self.MAX_ITER} loop iterations")
         self.log.append({"a": "Iter"})
 
     def on_trial_complete(self, trial, result):
         self.log.append({"a": "CbComplete", "t": trial.trial_id})
+
+    def on_start_trial(self, trial):
+        # a run-away experiment (far beyond every budget the campaigns use) is cut: the trace specification is
+        # instantiated for MAX_TRIALS trial ids
+        if trial.trial_id >= self.MAX_TRIALS:
+            raise LivelockError(f"more than {self.MAX_TRIALS} trials started")
+
+    MAX_TRIALS = 38
 
 
 def instrument_scheduler(sched, log):
@@ -337,10 +358,13 @@ _RUN_NO = [0]
 
 
 def run_tuner(conf: dict, script: Script, scheduler=None, stop_criterion=None, values=None,
-              store: Optional[StoreResultsCallback] = None, extra_callbacks=(), keep_dir=False) -> dict:
+              store: Optional[StoreResultsCallback] = None, extra_callbacks=(), keep_dir=False, backend=None) -> dict:
     """One complete real ``Tuner.run``.  Returns {"conf", "ev", ...} (a trace)."""
-    log: List[dict] = []
-    backend = ScriptedBackend(script, log, values=values, delete_checkpoints=bool(conf.get("del", False)))
+    if backend is not None:
+        log = backend.log
+    else:
+        log = []
+        backend = ScriptedBackend(script, log, values=values, delete_checkpoints=bool(conf.get("del", False)))
     sched = scheduler if scheduler is not None else ScriptedScheduler(script, conf.get("kind", "stop"))
     instrument_scheduler(sched, log)
     crit = stop_criterion if stop_criterion is not None else ScriptedCriterion(script)
@@ -379,6 +403,8 @@ def run_tuner(conf: dict, script: Script, scheduler=None, stop_criterion=None, v
                 kind = "nometrics"
             else:
                 kind = "other"
+        except LivelockError as e:
+            kind, msg = "livelock", repr(e)
         except AssertionError as e:
             kind, msg = "assertion", repr(e)
         except Exception as e:  # the code under test raised on a legal schedule
@@ -399,13 +425,13 @@ def trace_conf(conf: dict) -> dict:
          "kind": conf.get("kind", "stop"), "async": bool(conf.get("async", True)),
          "wait": bool(conf.get("wait", False)), "del": bool(conf.get("del", False)), "failb": 99, "extb": 99,
          "ckind": conf.get("ckind", "script"), "k": conf.get("k", 0), "emptyexit": True, "mayexhaust": True,
-         "r3": False, "r13": False}
+         "r3": False, "r13": False, "also": bool(conf.get("also", False)), "sim": bool(conf.get("sim", False))}
     return c
 
 
 TRACE_FIELDS = {
     "W_Emit": ("t",), "W_Exit": ("t",), "W_Fail": ("t",), "W_ExtStop": ("t",),
-    "Fetch": ("n",), "Result": ("t", "r", "i", "d"), "StopTrial": ("t",), "PauseTrial": ("t",),
+    "Fetch": ("n", "dead"), "Result": ("t", "r", "i", "d"), "StopTrial": ("t",), "PauseTrial": ("t",),
     "Remove": ("t",), "Complete": ("t",), "Error": ("t",), "CbComplete": ("t",), "Start": ("t", "from"),
     "Add": ("t",), "Resume": ("t",), "Delete": ("t",), "Exhausted": (), "StopCrit": ("b",), "Iter": (),
     "StopAll": ("S",), "End": ("kind", "named", "cnt"), "Removable": ("S",),
